@@ -33,6 +33,8 @@ for P in $PROP $EXTRA; do
 done
 if [ -n "$SCRATCH" ]; then git -C /tmp/scratch_eval/repo checkout -- . ; else git -C /repo checkout -- . ; fi
 [ -z "$(git -C /repo status --short)" ] || echo "WARNING /repo not clean after undo"
+# a run against a modified /repo rewrote the evidence file: put the committed one back
+[ -z "$SCRATCH" ] && git -C /verif checkout -- evidence 2>/dev/null
 mkdir -p "$DST"
 cp "$SRC/patch.diff" "$DST/patch.diff"; cp "$SRC/demo_test.rs" "$DST/demo_test.rs"; cp "$SRC/notes.md" "$DST/seeder_notes.md" 2>/dev/null
 python3 - "$ID" "$PROP" "$V" "[${RES%,}]" <<'PY'
